@@ -30,8 +30,8 @@ CLAIMED = {
          "iff the output is the first tick at which the steps taken under the C01 recurrence reach the budget, with that tick's position and accumulator; C03_consequence: the accumulator "
          "is in [0,2^31) and the timed-move recurrence at the reported duration reproduces position and accumulator; C03_invalid. calculate_lm / moveTimeLM outputs on valid moves "
          "(reversals at tick 1,2,3,.., step-boundary landings, durations to 2^32) are decided by the checker inside Coq (translation validation of outputs). The reversal branches of the "
-         "tree as found violated the property and were repaired in /repo.",
-         NOTE_COMMON + "The model reads mpmath at 30 digits as exact arithmetic (sqrt, ceil, floor become integer-square-root computations); that mpmath's rounding never changes a ceiling on the domain is sampled (knife-edge families), not proved. Every implementation output is compared with the model and independently decided by the proved checker.",
+         "tree as found violated the property and were repaired in /repo. C03_full_rounding_rne: calculate_lm with every mpmath operation rounded in source order (round-to-nearest-even at 103 bits, executable correctly rounded square root sqrt_ne, both with their order properties proved) returns the exact model's answer for every request in the firmware's argument ranges with a duration up to 2^32; that executable rounded model is also compared with every implementation output.",
+         NOTE_COMMON + "The model reads mpmath at 30 digits as exact arithmetic (sqrt, ceil, floor become integer-square-root computations); that rounding to nearest at 103 bits never changes a ceiling on the domain is proved (C03_rounding, C03_full_rounding_rne); that mpmath's operations are that rounding is compared on generated operands every run. Every implementation output is compared with the model and independently decided by the proved checker.",
          "DESIGN.md section 5, C03"),
  "C04": ("Coq proof: induction over all call histories and I/O scripts on a model of all 32 request methods + connect/disconnect; correspondence by history replay",
          "Theorems C04_step_silent, C04_err_first_wins, C04_history, C04_only_connect_writes: for every history of public calls, every start state and every I/O script (a fault at any read or write), "
@@ -75,7 +75,7 @@ CLAIMED = {
  "C12": ("Coq proof: one factor table, round trips, parser theorem over all numerals/whitespace + bit-exact float correspondence",
          "Theorems: the four conversion tables equal one SVG factor table (96 px/in), round trips, px = 96 x in, percentages of the supplied reference, None on unparsable text; "
          "C12_parse holds for every numeral ending in a digit or dot, every recognised suffix and any surrounding whitespace. The rnd53 execution of the same model is compared bit for bit "
-         "with plot_utils on generated and malformed strings.",
+         "with plot_utils on generated and malformed strings (including the texts float() reads beyond the SVG numeral grammar - inf, nan, underscores, other scripts' digits - which must give None: defect repaired in /repo 9a4ea9d).",
          NOTE_COMMON + "Numeral -> value is the modelled decimal grammar (inf/nan/underscore literals are outside it); float rounding executed by Base/Rnd.v.",
          "DESIGN.md section 5, C12"),
  "C13": ("Coq proof for every path list, bins >= 1, reversal setting and removal history: grid invariant by induction over removals, adjacency = Chebyshev-1, nearest() over the live ends; history correspondence on Fractions",
